@@ -96,3 +96,38 @@ def calls_in(F, bodies, *regexes):
 def sends(F, bodies):
     """Calls to `UnboundedSender::unbounded_send` in the given bodies."""
     return calls_in(F, bodies, r"UnboundedSender::<.*>::unbounded_send$", r"UnboundedSender.*::unbounded_send$")
+
+
+def attempt_tree(F):
+    """All bodies of the attempt routine: RUN_SCENARIO's fn, everything nested in it, and (transitively) every crate-local
+    callee that is a method of the same impl type (the `Executor`), with their nested bodies."""
+    rs = run_scenario(F)
+    root = F.root_fn(rs)
+    owner = (root.impl or {}).get("self_adt")
+    seen = {}
+    work = [root]
+    while work:
+        x = work.pop()
+        if x.key in seen:
+            continue
+        for nb in F.nested(x):
+            if nb.key in seen:
+                continue
+            seen[nb.key] = nb
+            for s, t in nb.calls():
+                cb = F.callee_body(t, nb.crate)
+                if cb is not None and cb.impl and cb.impl.get("self_adt") == owner and not cb.impl.get("trait") and cb.key not in seen:
+                    work.append(cb)
+    return rs, root, list(seen.values())
+
+
+def emitters(F, bodies):
+    """Crate-local fns among `bodies` that (directly) send on an UnboundedSender carrying events."""
+    out = {}
+    for b in bodies:
+        if b.kind in ("Fn", "AssocFn"):
+            for s, t in sends(F, [b]):
+                f = op_fn(t["func"])
+                if f and "event::Event" in f.get("full", ""):
+                    out[b.key] = b
+    return out
